@@ -43,10 +43,31 @@ func runC37(c *an.Ctx) {
 		}
 		for _, k := range an.CallsTo(fn, push) {
 			nPush++
-			c.Check(fn == update, "confine|Bucket.PushFront|"+an.FuncName(fn), "peers are inserted into a bucket only by RouteTable.Update", c.P.Rel(k.Pos()), "new inserter")
+			// Update itself, or a private helper that only Update calls (the rules below enter it from Update)
+			inUpdate := false
+			for _, g := range an.InlineReach(update) {
+				if g == fn {
+					inUpdate = true
+				}
+			}
+			onlyFromUpdate := fn == update
+			if inUpdate && fn != update {
+				onlyFromUpdate = true
+				for _, g := range fns {
+					if g == update || strings.HasSuffix(c.P.Fset.Position(g.Pos()).Filename, "_test.go") {
+						continue
+					}
+					for _, kk := range an.Calls(g) {
+						if kk.Common().StaticCallee() == fn && g != fn {
+							onlyFromUpdate = false
+						}
+					}
+				}
+			}
+			c.Check(onlyFromUpdate, "confine|Bucket.PushFront|"+an.FuncName(fn), "peers are inserted into a bucket only by RouteTable.Update", c.P.Rel(k.Pos()), "new inserter")
 		}
 	}
-	c.RequireMin("Bucket.PushFront call sites", nPush, 2)
+	c.RequireMin("Bucket.PushFront call sites", nPush, 1)
 	isPush := func(in ssa.Instruction) bool { return isCallTo(in, push) }
 	capacity := &an.Guard{Name: "Len() vs bucketsize", MatchValue: func(v ssa.Value) bool { return false }}
 	// comparisons of a Bucket.Len() result with rt.bucketsize
@@ -77,21 +98,54 @@ func runC37(c *an.Ctx) {
 	}
 	_ = capacity
 	v := an.GuardedX(c.P, update, nil, asNoRoom, isPush, false)
-	c.Check(v.Holds && nCmp >= 2 && v.ActionSites >= 2, "guard|RouteTable.Update|insert-only-with-room", "a peer is pushed into a bucket only on the edge where that bucket's Len() is below the bucket size", c.P.Rel(update.Pos()), v.Witness)
-	// each push is dominated by a capacity comparison on the same bucket value
+	c.Check(v.Holds && nCmp >= 2 && v.ActionSites >= 1, "guard|RouteTable.Update|insert-only-with-room", "a peer is pushed into a bucket only on the edge where that bucket's Len() is below the bucket size", c.P.Rel(update.Pos()), v.Witness)
+	// each push is dominated by a capacity comparison on the same bucket value; a push made in a private helper
+	// (addNewPeer(bucket, pair)) is judged at each call of that helper in Update, for the bucket passed there
 	okSame := true
-	for _, k := range an.CallsTo(update, push) {
+	type pushAt struct {
+		at   ssa.Instruction
+		recv ssa.Value
+	}
+	var pushesAt []pushAt
+	for _, k := range an.CallsToReach(update, push) {
 		recv := recvOf(k.Common())
+		if k.Parent() == update {
+			pushesAt = append(pushesAt, pushAt{k, recv})
+			continue
+		}
+		p, isP := recv.(*ssa.Parameter)
+		sites := an.SitesOf(update, k.Parent())
+		if !isP || len(sites) == 0 {
+			okSame = false
+			continue
+		}
+		for i, fp := range k.Parent().Params {
+			if fp != p {
+				continue
+			}
+			for _, s := range sites {
+				if s.Parent() == update && i < len(s.Call.Args) {
+					pushesAt = append(pushesAt, pushAt{s, s.Call.Args[i]})
+				} else {
+					okSame = false
+				}
+			}
+		}
+	}
+	for _, pa := range pushesAt {
 		found := false
 		for cmp := range asNoRoom {
 			lk := cmp.(*ssa.BinOp).X.(*ssa.Call)
-			if recvOf(lk.Common()) == recv && lk.Block().Dominates(k.Block()) {
+			if recvOf(lk.Common()) == pa.recv && lk.Block().Dominates(pa.at.Block()) {
 				found = true
 			}
 		}
 		if !found {
 			okSame = false
 		}
+	}
+	if len(pushesAt) == 0 {
+		okSame = false
 	}
 	c.Check(okSame, "same-subject|RouteTable.Update|capacity-of-the-pushed-bucket", "the capacity test that guards an insertion is on the very bucket that is pushed to", c.P.Rel(update.Pos()), "a push is not dominated by Len() of its own bucket")
 	present := &an.Guard{Name: "Bucket.Has", FailModes: [][]an.Abs{{an.ATrue}}, MatchCall: func(k ssa.CallInstruction) bool { return an.CalleeObj(k.Common()) == has }}
@@ -108,7 +162,12 @@ func runC37(c *an.Ctx) {
 				unfolds = append(unfolds, k)
 			}
 		}
-		for _, b := range fn.Blocks {
+		// fn and the private helpers it is split into (the clamp helper itself indexes nothing)
+		var blocks []*ssa.BasicBlock
+		for _, g := range an.InlineReach(fn) {
+			blocks = append(blocks, g.Blocks...)
+		}
+		for _, b := range blocks {
 			for _, in := range b.Instrs {
 				ia, isIA := in.(*ssa.IndexAddr)
 				if !isIA {
@@ -214,6 +273,34 @@ func runC37(c *an.Ctx) {
 		// the pushed value is the Value of the removed element
 		pv := pushes[0].Common().Args[1]
 		re := removes[0].Common().Args[1]
+		// e.Value, possibly asserted to its concrete type and boxed again (pair := e.Value.(T); PushBack(pair))
+		for i := 0; i < 5; i++ {
+			switch x := pv.(type) {
+			case *ssa.MakeInterface:
+				pv = x.X
+			case *ssa.TypeAssert:
+				pv = x.X
+			case *ssa.Extract:
+				if ta, isTA := x.Tuple.(*ssa.TypeAssert); isTA {
+					pv = ta.X
+				}
+			case *ssa.UnOp:
+				// a local copy of the asserted value (spilled because a field of it is read)
+				if al, isAl := x.X.(*ssa.Alloc); isAl && al.Referrers() != nil {
+					var stored ssa.Value
+					n := 0
+					for _, r := range *al.Referrers() {
+						if st, isSt := r.(*ssa.Store); isSt && st.Addr == ssa.Value(al) {
+							stored = st.Val
+							n++
+						}
+					}
+					if n == 1 {
+						pv = stored
+					}
+				}
+			}
+		}
 		if u, ok := pv.(*ssa.UnOp); ok {
 			if fa, isFA := u.X.(*ssa.FieldAddr); !isFA || fa.X != re {
 				okSplit = false
@@ -274,6 +361,9 @@ func runC37(c *an.Ctx) {
 // prefix length and "number of buckets minus one", the latter chosen exactly when the prefix length is not below
 // the number of buckets. It returns the loads of rt.Buckets whose length was used (for the freshness rule).
 func clampedCPL(idx ssa.Value) (lens []ssa.Instruction, why string) {
+	if call, isCall := idx.(*ssa.Call); isCall {
+		return clampedByHelper(call)
+	}
 	ph, ok := idx.(*ssa.Phi)
 	if !ok {
 		return nil, "the index is not a clamped prefix length"
@@ -385,6 +475,132 @@ func clampedCPL(idx ssa.Value) (lens []ssa.Instruction, why string) {
 		why = "the index is not the prefix length clamped to the last bucket"
 	}
 	return lens, why
+}
+
+// clampedByHelper: the index is computed by a private helper of the table, h(cpl), every return of which is either
+// its parameter - on the side of the comparison where the parameter is below the number of buckets - or
+// len(Buckets)-1 - on the other side. The helper reads the number of buckets when it is called, so the call itself
+// is the "length read" for the freshness rule.
+func clampedByHelper(call *ssa.Call) (lens []ssa.Instruction, why string) {
+	h := call.Call.StaticCallee()
+	if h == nil || h.Blocks == nil || h.Object() == nil || h.Object().Exported() || h.Pkg != call.Parent().Pkg {
+		return nil, "the index is not a clamped prefix length"
+	}
+	isCPLCall := func(v ssa.Value) bool {
+		if cv, isCv := v.(*ssa.Convert); isCv {
+			v = cv.X
+		}
+		k, isK := v.(*ssa.Call)
+		return isK && k.Call.StaticCallee() != nil && k.Call.StaticCallee().Name() == "CommonPrefixLen"
+	}
+	var param *ssa.Parameter
+	for i, a := range call.Call.Args {
+		// the prefix length, directly or as the (re-assigned) local that holds it
+		ok := isCPLCall(a)
+		if ph, isPhi := a.(*ssa.Phi); isPhi && !ok {
+			for _, e := range ph.Edges {
+				ok = ok || isCPLCall(e)
+			}
+		}
+		if ok && i < len(h.Params) {
+			param = h.Params[i]
+		}
+	}
+	if param == nil {
+		return nil, "the bucket index helper is not given the common-prefix length"
+	}
+	lenOfBuckets := func(v ssa.Value) bool {
+		k, isC := v.(*ssa.Call)
+		if !isC {
+			return false
+		}
+		if bi, isB := k.Call.Value.(*ssa.Builtin); !isB || bi.Name() != "len" {
+			return false
+		}
+		f := fieldOfLoad(k.Call.Args[0])
+		return f != nil && f.Name() == "Buckets"
+	}
+	lastBucket := func(v ssa.Value) bool {
+		x, isB := v.(*ssa.BinOp)
+		if !isB || x.Op != token.SUB {
+			return false
+		}
+		k, isK := x.Y.(*ssa.Const)
+		return isK && k.Int64() == 1 && lenOfBuckets(x.X)
+	}
+	// side(b): +1 if block b is only reachable where param >= len(Buckets), -1 where param < len(Buckets), 0 unknown
+	side := func(b *ssa.BasicBlock) int {
+		for d := b; d != nil; d = d.Idom() {
+			p := d.Idom()
+			if p == nil {
+				break
+			}
+			iff, isIf := p.Instrs[len(p.Instrs)-1].(*ssa.If)
+			if !isIf || len(d.Preds) != 1 || d.Preds[0] != p {
+				continue
+			}
+			cmp, isCmp := iff.Cond.(*ssa.BinOp)
+			if !isCmp {
+				continue
+			}
+			onTrue := p.Succs[0] == d
+			x, y := cmp.X, cmp.Y
+			if cv, isCv := x.(*ssa.Convert); isCv {
+				x = cv.X
+			}
+			ge := 0 // +1: cond true means param >= len; -1: cond true means param < len
+			switch {
+			case x == ssa.Value(param) && lenOfBuckets(y) && cmp.Op == token.GEQ:
+				ge = 1
+			case x == ssa.Value(param) && lenOfBuckets(y) && cmp.Op == token.LSS:
+				ge = -1
+			case x == ssa.Value(param) && lastBucket(y) && cmp.Op == token.GTR:
+				ge = 1
+			case x == ssa.Value(param) && lastBucket(y) && cmp.Op == token.LEQ:
+				ge = -1
+			case lenOfBuckets(x) && y == ssa.Value(param) && cmp.Op == token.LEQ:
+				ge = 1
+			case lenOfBuckets(x) && y == ssa.Value(param) && cmp.Op == token.GTR:
+				ge = -1
+			default:
+				continue
+			}
+			if !onTrue {
+				ge = -ge
+			}
+			return ge
+		}
+		return 0
+	}
+	nParam, nLast := 0, 0
+	for _, r := range an.Returns(h) {
+		if len(r.Results) != 1 {
+			return nil, "the bucket index helper does not return one index"
+		}
+		for _, v := range an.AllSources(r.Results[0]) {
+			if cv, isCv := v.(*ssa.Convert); isCv {
+				v = cv.X
+			}
+			switch {
+			case v == ssa.Value(param):
+				nParam++
+				if side(r.Block()) != -1 {
+					return nil, "the bucket index helper returns the prefix length where it is not known to be below the number of buckets"
+				}
+			case lastBucket(v):
+				nLast++
+				if side(r.Block()) != 1 {
+					return nil, "the bucket index helper returns the last bucket where the prefix length may have a bucket of its own"
+				}
+			default:
+				return nil, "the bucket index helper can return a value that is neither the prefix length nor the last bucket"
+			}
+		}
+	}
+	if nParam == 0 || nLast == 0 {
+		return nil, "the bucket index helper does not clamp the prefix length to the last bucket"
+	}
+	return []ssa.Instruction{call}, ""
 }
 
 func fieldOfLoadAddr(v ssa.Value) string {
